@@ -6,4 +6,4 @@ PKG=$(grep -m1 -i "package dir" $D | sed -E 's/.*[Pp]ackage dir(ectory)?:? *//; 
 RX=$(grep -E "^func Test" $D | sed -E 's/func (Test[A-Za-z0-9_]*).*/\1/' | paste -sd'|')
 echo "### $ID change $N pkg=$PKG tests=$RX"
 /verif/tools/seed_confirm.sh $ID $N "$PKG" "^($RX)\$" 2>&1 | grep -E "^---|^ok|^FAIL|build-ok|baseline:|NOT PASSING|PATCH" | cut -c1-150
-/verif/tools/seed_check.sh $ID $N "$@" 2>&1 | grep -E "^==|signature|KNOWN" | cut -c1-200
+/verif/tools/seed_check_alt.sh ${SEEDDIR:-/tmp/seed}/$ID/change$N.diff "$@" 2>&1 | grep -E "^==|signature|KNOWN" | cut -c1-200
